@@ -420,8 +420,6 @@ write_field_info (const gchar *namespace,
   if (size)
     xml_printf (file, " bits=\"%d\"", size);
 
-  write_attributes (file, (GIBaseInfo*) info);
-
   type = g_field_info_get_type (info);
 
   if (branch)
@@ -437,8 +435,11 @@ write_field_info (const gchar *namespace,
   if (file->show_all)
     {
       if (offset >= 0)
-        xml_printf (file, "offset=\"%d\"", offset);
+        xml_printf (file, " offset=\"%d\"", offset);
     }
+
+  /* attributes are child elements: they follow the XML attributes of the field */
+  write_attributes (file, (GIBaseInfo*) info);
 
   interface = g_type_info_get_interface (type);
   if (interface && g_base_info_get_type(interface) == GI_INFO_TYPE_CALLBACK)
